@@ -39,7 +39,7 @@ DOC_MATCHERS = ['wl_surface', 'xdg_*', '5', '4b', '.commit', 'wl_surface.commit'
                 '*******************0*****', '*a*b*c*d*e*f*g*h*i*j*k*l*m*n*o*p*0', 'w*l*_*s*u*r*f*a*c*e*0', '.*_*_*_*_*_*_*_*_*_*_*_*_*_*_*_*_*_*_*_*0',
                 '(*a*a*a*a*a*a*a*a*a*a*a*a*a*a*a*a*a*a*a*a*a*a*a*a*a*a*a*a*0=1)', '(x=*x*x*x*x*x*x*x*x*x*x*x*x*x*x*x*x*x*x*x*x*x*x*x*y)']
 TOKENS = ['7' * 4400, '-' + '9' * 5000, '[' * 300, '(' * 300, '[' * 300 + 'x' + ']' * 300, '(' * 200 + ')' * 200, '1e999', '-1e999', 'infinity', '[', ']', '(', ')', '!', ',', '.', ':', '=', '@', '#', '*', '"', ' ', '~', '-', '\\', "'", '\x1b[31m', '\x1b[0m', '\t', 'nil', 'new', 'destroyed', 'żółć', '日本', '0', '007', '1e9',
-          'inf', 'nan', '1_0', '99999999999999999999999', 'a' * 300, '\x00', '%s', '{', '}', '..', '::', '((', '))', '[[', ']]', '""', 'unknown', 'A', 'wl_display', '1a', 'zz']
+          'inf', 'nan', '1_0', '99999999999999999999999', '12\u0130', '3\u212a', '5\u00b2', '\uff11\uff12', '7\u017f', '4\u00df', '2\u0131', '@3\u0130', '6\u01c5', '8\ufb01', '\u0661\u0662', '9\u0345', '1\u1e9e', 'a' * 300, '\x00', '%s', '{', '}', '..', '::', '((', '))', '[[', ']]', '""', 'unknown', 'A', 'wl_display', '1a', 'zz']
 COMMANDS = ['help', 'list', 'filter', 'breakpoint', 'matcher', 'connection', 'resume', 'quit', 'h', 'l', 'f', 'b', 'm', 'c', 'r', 'q', 'w', 'wl', 'wlh', 'wll', 'wlf', 'wlb', 'wlm',
             'wlc', 'wlr', 'wlq', 'wayland', 'he', 'li', 'fi', 'br', 'ma', 'co', 're', 'qu', 'x', '', 'LIST', 'wlwl', 'wl wl', 'w w w', '\x1b[93mhelp\x1b[0m']
 
@@ -47,9 +47,9 @@ COMMANDS = ['help', 'list', 'filter', 'breakpoint', 'matcher', 'connection', 're
 def plan(tier, seed):
     if tier == 'quick':
         return ([{'mode': 'log', 'n': 200} for _ in range(5)] + [{'mode': 'matcher', 'n': 8000} for _ in range(5)] +
-                [{'mode': 'command', 'n': 5000} for _ in range(4)] + [{'mode': 'process', 'n': 12} for _ in range(4)])
+                [{'mode': 'command', 'n': 5000} for _ in range(4)] + [{'mode': 'process', 'n': 24, 'fixed_probes': i == 0} for i in range(4)])
     return ([{'mode': 'log', 'n': 2500} for _ in range(20)] + [{'mode': 'matcher', 'n': 80000} for _ in range(20)] +
-            [{'mode': 'command', 'n': 40000} for _ in range(16)] + [{'mode': 'process', 'n': 120} for _ in range(8)])
+            [{'mode': 'command', 'n': 40000} for _ in range(16)] + [{'mode': 'process', 'n': 120, 'fixed_probes': i == 0} for i in range(8)])
 
 
 # ------------------------------------------------------------------------------------------------- generators
@@ -367,6 +367,21 @@ def gen_bytes(rng, cands):
             data = data[:i]
     if rng.random() < 0.7:
         data += b'\n'
+    if rng.random() < 0.5:
+        # the first bytes decide what many tools take a file for: compressed containers (whole, cut short, or only the magic),
+        # byte order marks, executables, scripts
+        import gzip
+        import bz2
+        import lzma
+        whole = {'gz': gzip.compress, 'bz2': bz2.compress, 'xz': lzma.compress}
+        r = rng.random()
+        if r < 0.5:
+            z = whole[rng.choice(sorted(whole))](bytes(data))
+            data = z if rng.random() < 0.3 else z[:rng.randint(2, max(2, len(z) - 1))]
+        else:
+            magic = rng.choice([b'\x1f\x8b', b'\x1f\x8b\x08\x00', b'BZh9', b'\xfd7zXZ\x00', b'\x28\xb5\x2f\xfd', b'PK\x03\x04', b'\xff\xfe', b'\xfe\xff',
+                                b'\xef\xbb\xbf', b'\x7fELF', b'#!/bin/sh\n', b'\x00\x00\xfe\xff', b'%PDF-', b'\x89PNG\r\n\x1a\n', b'\x04\x22\x4d\x18', b'\x1f\x9d', b'\x1f\xa0'])
+            data = magic + bytes(data)
     return bytes(data)
 
 
@@ -377,9 +392,23 @@ def run_process(ctx, spec):
     helpers = os.path.join(os.path.dirname(os.path.dirname(os.path.abspath(__file__))), 'helpers')
     d = tempfile.mkdtemp(prefix='verif-c18-')
     try:
-        for n in range(spec['n']):
+        import gzip
+        import bz2
+        import lzma
+        plain = b'[1.000]  -> wl_display@1.sync(new id wl_callback@2)\n[1.001] wl_callback@2.done(7)\n'
+        fixed = []
+        if spec.get('fixed_probes'):
+            # every run: each container format cut short and reduced to its magic, in file and pipe mode
+            for comp in (gzip.compress, bz2.compress, lzma.compress):
+                z = comp(plain * 20)
+                for d2 in (z[:len(z) // 2], z[:4] + b'garbage\n' + plain, z):
+                    for m2 in ('-l', '-p'):
+                        fixed.append((d2, m2))
+        for n in range(spec['n'] + len(fixed)):
             data = gen_bytes(rng, cands)
             mode = rng.choice(['-l', '-p', '-r'])
+            if n < len(fixed):
+                data, mode = fixed[n]
             loc = rng.choice(['C.UTF-8', 'POSIX'])
             e2 = {k: v for k, v in os.environ.items() if not k.startswith('LC_') and k not in ('LANG', 'PYTHONIOENCODING', 'PYTHONUTF8')}
             e2['LC_ALL'] = loc
